@@ -48,6 +48,8 @@ mod imp {
         }
         vals.reverse();
         VALS.with(|v| *v.borrow_mut() = vals);
+        // a replayed counterexample that does not return is reported, not waited for
+        watch_begin(harness, 0);
         true
     }
     thread_local! {
@@ -104,7 +106,71 @@ mod imp {
     pub fn next_below(n: u64) -> u64 {
         let v = rnd() % n;
         TRACE.with(|t| t.borrow_mut().push(v.to_le_bytes().to_vec()));
+        watch_draw(&v.to_le_bytes());
         v
+    }
+    // ---- watchdog: a sampled iteration (or a replay) that does not return is a counterexample too ("every call returns") -----------
+    // The draws of the running iteration are mirrored into a process-wide table; a watchdog thread writes them out as a replay file
+    // and ends the process when one iteration has been running for HANG_SECS.
+    const HANG_SECS: u64 = 120;
+    struct Running {
+        since: std::time::Instant,
+        draws: Vec<Vec<u8>>,
+        seed: u64,
+    }
+    static WATCH: std::sync::Mutex<Option<std::collections::HashMap<String, Running>>> = std::sync::Mutex::new(None);
+    thread_local!(static CURRENT: std::cell::RefCell<Option<String>> = std::cell::RefCell::new(None));
+    fn watch_begin(harness: &str, seed: u64) {
+        static START: std::sync::Once = std::sync::Once::new();
+        START.call_once(|| {
+            std::thread::spawn(|| loop {
+                std::thread::sleep(std::time::Duration::from_secs(1));
+                let g = WATCH.lock().unwrap();
+                if let Some(m) = g.as_ref() {
+                    for (h, r) in m.iter() {
+                        if r.since.elapsed().as_secs() >= HANG_SECS {
+                            let msg = format!("iteration did not return within {} s (non-termination?)", HANG_SECS);
+                            let mut text = format!("harness {}\n# sampled counterexample (seed {}): {}\n", h, r.seed, msg);
+                            for v in r.draws.iter() {
+                                let l: Vec<String> = v.iter().map(|b| b.to_string()).collect();
+                                text.push_str(&l.join(" "));
+                                text.push('\n');
+                            }
+                            if let Ok(prefix) = std::env::var("VERIF_SAMPLE_OUT") {
+                                let _ = std::fs::write(format!("{}{}.txt", prefix, h), &text);
+                            }
+                            println!("SAMPLED-COUNTEREXAMPLE harness={} panic={}", h, msg);
+                            println!("SAMPLED-HANG harness={}", h);
+                            std::process::exit(101);
+                        }
+                    }
+                }
+            });
+        });
+        CURRENT.with(|c| *c.borrow_mut() = Some(harness.to_string()));
+        let mut g = WATCH.lock().unwrap();
+        g.get_or_insert_with(std::collections::HashMap::new)
+            .insert(harness.to_string(), Running { since: std::time::Instant::now(), draws: Vec::new(), seed });
+    }
+    fn watch_draw(v: &[u8]) {
+        CURRENT.with(|c| {
+            if let Some(h) = c.borrow().as_ref() {
+                if let Some(m) = WATCH.lock().unwrap().as_mut() {
+                    if let Some(r) = m.get_mut(h) {
+                        r.draws.push(v.to_vec());
+                    }
+                }
+            }
+        });
+    }
+    fn watch_end() {
+        CURRENT.with(|c| {
+            if let Some(h) = c.borrow_mut().take() {
+                if let Some(m) = WATCH.lock().unwrap().as_mut() {
+                    m.remove(&h);
+                }
+            }
+        });
     }
     pub fn sample_cfg() -> Option<(u64, u64)> {
         let c = std::env::var("VERIF_SAMPLE").ok()?;
@@ -132,7 +198,9 @@ mod imp {
         for _ in 0..n {
             TRACE.with(|t| t.borrow_mut().clear());
             let t0 = std::time::Instant::now();
+            watch_begin(harness, seed);
             let r = std::panic::catch_unwind(std::panic::AssertUnwindSafe(|| body()));
+            watch_end();
             if t0.elapsed().as_secs() >= 5 {
                 // diagnostic only: one iteration that takes this long usually means a harness walking a huge range
                 let mut text = format!("harness {}\n# slow iteration ({} s)\n", harness, t0.elapsed().as_secs());
@@ -189,6 +257,7 @@ mod imp {
         if sampling() {
             let v = sample_value(n);
             TRACE.with(|t| t.borrow_mut().push(v.clone()));
+            watch_draw(&v);
             return v;
         }
         let v = VALS.with(|v| v.borrow_mut().pop());
